@@ -327,7 +327,21 @@ Section Reader.
   Definition get_section (o : opts) (orps : bool) (section count : Z) : MM unit :=
     get_section_loop o section count (Z.to_nat count) 0 orps.
 
-  (* _WireReader.read *)
+  (* _WireReader.read: the body of its try block, and its except clause *)
+  Definition read_sections (o : opts) (orps : bool) (qcount ancount aucount adcount : Z) : MM unit :=
+    dmm _ <- get_question (Z.to_nat qcount);
+    if o_qonly o then mret tt
+    else
+      dmm _ <- get_section o orps 1 ancount;
+      dmm _ <- get_section o orps 2 aucount;
+      dmm _ <- get_section o orps 3 adcount;
+      dmm s1 <- getp;
+      if negb (o_ignore_trailing o) && negb (remaining s1 =? 0)
+      then mraise (XLib eTrailingJunk) else mret tt.
+
+  Definition read_handler (coe : bool) (x : exn) : MM unit :=
+    if coe then dmm s1 <- getp; upd (add_err (code_of x, pcur s1)) else mraise x.
+
   Definition read (o : opts) : MM unit :=
     dmm s <- getp;
     if remaining s <? 12 then mraise (XLib eShortHeader)
@@ -338,19 +352,7 @@ Section Reader.
           let update := Z.land (Z.shiftr flags 11) 15 =? 5 in
           dmm _ <- upd (start_msg update flags);
           let orps := if update then true else o_orps o in
-          catch
-            (dmm _ <- get_question (Z.to_nat qcount);
-             if o_qonly o then mret tt
-             else
-               dmm _ <- get_section o orps 1 ancount;
-               dmm _ <- get_section o orps 2 aucount;
-               dmm _ <- get_section o orps 3 adcount;
-               dmm s1 <- getp;
-               if negb (o_ignore_trailing o) && negb (remaining s1 =? 0)
-               then mraise (XLib eTrailingJunk) else mret tt)
-            (fun x =>
-               if o_coe o then dmm s1 <- getp; upd (add_err (code_of x, pcur s1))
-               else mraise x)
+          catch (read_sections o orps qcount ancount aucount adcount) (read_handler (o_coe o))
       | _ => mraise (XInt iIndexError)
       end.
 
